@@ -185,6 +185,10 @@ structure NodeOk (P : Prog) (idOf : Nat → Nat) (s : State) (q : Nat) (m : Memo
       or 1.  (A re-execution that repeats all reads may still not be backdated — the struct a
       handle points to was re-allocated — and then the new stamp must not be lower.) -/
   m4 : m.ca ≤ 1 ∨ ∃ o, o ∈ m.obs ∧ o.out = false ∧ ∀ x, depInfo s o.dep = some x → m.ca ≤ x.ca
+  /-- recorded values have the shape `Wf2B` constrains continuations on: only a query read can
+      carry a handle, and then of a creator not above the query -/
+  shape : ∀ o, o ∈ m.obs → o.out = false →
+    (match o.dep with | .qry q' => ∀ c, o.val.h = some c → c ≤ q' | _ => o.val.h = none)
 
 /-- a memo of `spec(struct of c)` -/
 structure SpecOk (P : Prog) (idOf : Nat → Nat) (s : State) (c : Nat) (sm : Memo) : Prop where
